@@ -244,3 +244,12 @@ mod tests {
         d.dispatch();
     }
 }
+
+#[cfg(feature = "verif-hooks")]
+impl Dispatcher<'_, '_> {
+    /// Verification hook (read-only): shape of the executed layout and the
+    /// number of thread-local systems.
+    pub fn verif_shape(&self) -> (Vec<Vec<usize>>, usize) {
+        (self.inner.verif_shape(), self.thread_local.len())
+    }
+}
